@@ -1,6 +1,8 @@
 package checks
 
 import (
+	"fmt"
+	"strings"
 	"math/rand"
 
 	"github.com/formancehq/ledger/verifharness/core"
@@ -118,6 +120,28 @@ func c25Postings(rng *rand.Rand) []sim.P {
 			src = ps[len(ps)-1].Destination
 		}
 		ps = append(ps, sim.P{Source: src, Destination: dst, Asset: sim.GenAssets[rng.Intn(len(sim.GenAssets))], Amount: sim.Amount(rng, true).String()})
+	}
+	if rng.Intn(4) == 0 {
+		// two postings whose (asset, amount) pairs collide under naive textual keys: the digits D
+		// are split differently between the end of the asset name and the amount (AB1|23 vs AB12|3,
+		// USD/2|15 vs USD/21|5), as are keys ignoring source/destination (same pair, other accounts)
+		base := []string{"AB", "USD/", "COIN", "X9"}[rng.Intn(4)]
+		digits := fmt.Sprint(1000 + rng.Intn(9000)) // 4 digits
+		i, j := rng.Intn(3), rng.Intn(3)            // digits moved into the asset name: 0..2
+		if base == "USD/" {
+			i, j = 1+rng.Intn(2), 1+rng.Intn(2)
+		}
+		mk := func(k int) (string, string) {
+			amt := strings.TrimLeft(digits[k:], "0")
+			if amt == "" {
+				amt = "0"
+			}
+			return base + digits[:k], amt
+		}
+		a1, n1 := mk(i)
+		a2, n2 := mk(j)
+		ps = append(ps, sim.P{Source: "world", Destination: sim.GenAccounts[rng.Intn(len(sim.GenAccounts))], Asset: a1, Amount: n1},
+			sim.P{Source: "world", Destination: sim.GenAccounts[rng.Intn(len(sim.GenAccounts))], Asset: a2, Amount: n2})
 	}
 	return ps
 }
